@@ -744,7 +744,18 @@ class Interp:
             v = self.eval(e.operand, env, fr, pc)
             return self.unop(e.op, v)
         if isinstance(e, ast.BoolOp):
-            vals = [self.eval(x, env, fr, pc) for x in e.values]   # operands here are side-effect free comparisons
+            # short-circuit: an operand is evaluated (and may raise) only on the paths where the earlier operands did not decide the result
+            vals = []
+            cur = pc
+            is_and = isinstance(e.op, ast.And)
+            for x in e.values:
+                v = self.eval(x, env, fr, cur)
+                vals.append(v)
+                if is_sym(v):
+                    c = ctx.lift_bool(v)
+                    cur = z3.And(cur, c if is_and else z3.Not(c))
+                elif bool(v) != is_and:
+                    break
             return self.boolop(e.op, vals)
         if isinstance(e, ast.Compare):
             left = self.eval(e.left, env, fr, pc)
